@@ -210,6 +210,7 @@ Section Spec.
          | None => s end, SAny)
     | OPlantDir p => (mkSS (ss_projs s) (ss_sess s) (ss_hs s) (ss_cells s) (ss_gen s) (p :: ss_planted s) (ss_orph s), SAny)
     | OPlantFile _ _ => (s, SAny)
+    | OWipe _ => (s, SAny)          (* C02's op (a workspace removed behind the Project object); no C03 history uses it *)
     | OIds si => (s, SIds (map fst (proj_of s (sessS s si))))
     | OLen si => (s, SNum (N.of_nat (length (proj_of s (sessS s si)))))
     | OContains si h => (s, SBool (has_key (cid (cellS s (sh_cell (hS s h)))) (proj_of s (sessS s si))))
